@@ -64,24 +64,38 @@ def api_case(nr, npots, derivs, route, h=None, intcore=False):
     out = io.StringIO()
     core.INT_TAGS = intcore
     try:
+      second = None
       if route == "class":
-        LAMMPS_PairTabulation(pots, cutoff, nr).write(out)
+        tab = LAMMPS_PairTabulation(pots, cutoff, nr)
+        tab.write(out)
+        # the same tabulation object written a second time gives the same table
+        out2 = io.StringIO()
+        tab.write(out2)
+        second = out2.getvalue()
       else:
         ap.writePotentials("LAMMPS", pots, cutoff, nr, out)
     finally:
       core.INT_TAGS = False
-    return out.getvalue()
+    return out.getvalue(), second
 
   def T(path, x):
     t = path.term_of_number(x)
     return t if t is not None else rv(x)
 
   def build(path, wrong=False):
-    text = path.value
+    first, second = path.value
+    vcs = build_text(path, first, wrong, "")
+    if second is not None and not wrong:
+      for v in build_text(path, second, False, "second-write-"):
+        v.name = "second write/" + v.name
+        vcs.append(v)
+    return vcs
+
+  def build_text(path, text, wrong, kp):
     try:
       blocks = pairtables.read_lammps_table(text)
     except pairtables.FormatError as e:
-      raise Structural("format", "LAMMPS reader rejects the file: %s" % e)
+      raise Structural(kp + "format", "LAMMPS reader rejects the file%s: %s" % (" written second from the same object" if kp else "", e))
     cutoff_t = z3.Real("cutoff")
     if len(blocks) != npots:
       raise Structural("nblocks", "%d blocks for %d potentials" % (len(blocks), npots))
